@@ -7,6 +7,7 @@
 #include "stir/recon_buildblock/TrivialBinNormalisation.h"
 #include "stir/recon_buildblock/ChainedBinNormalisation.h"
 #include "scatter_common.h"
+#include "lm_world.h"
 #include "stir/Array.h"
 #include "stir/IndexRange2D.h"
 #include "stir/IndexRange3D.h"
@@ -247,6 +248,33 @@ scen_array_impl(const sim::Plan& p, int threads, const sc::Params& sp)
   o.h.push_back((uint64_t)(long)a2.find_max());
   o.h.push_back((uint64_t)(long)a2.find_min());
   o.h.push_back((uint64_t)a2.size_all());
+  return o;
+}
+
+// list-mode objective function (LM_distributable_computation: parallel loop over cached events, per-thread images and
+// rows, shared matrix cache hit in arbitrary event order; additive-term caching loop): sensitivity, gradient+sensitivity,
+// value and Hessian product of every subset.  Inexact arithmetic: compared with the reassociation bound.
+inline Outcome
+scen_lm_impl(const sim::Plan& p0, int threads, const sc::Params& sp)
+{
+  sim::Plan p = p0;
+  p.cfg["ndet"] = 8 * (1 + p0.c("ndet", 8) % 2);
+  p.cfg["nrings"] = std::min<long>(2, p0.c("nrings", 1));
+  p.cfg["tof_mash"] = p0.c("span", 1) == 3 ? 3 : 1;
+  p.cfg["nrec"] = 40 + p0.c("nreq", 40) * 2;
+  p.cfg["additive"] = p0.c("use_additive", 0);
+  p.cfg["norm"] = p0.c("use_norm", 0);
+  p.cfg["subsets_pick"] = p0.c("subsets", 1) - 1;
+  p.cfg["use_frame"] = p0.c("clear", 0);
+  p.cfg["frame_from_zero"] = p0.c("basic_only", 0);
+  p.cfg["cache_size"] = p0.c("file_out", 0) ? 5 + p0.c("hot", 1) * 10 : 0;
+  p.cfg["delayeds"] = 0;
+  p.seed = sim::mix((uint64_t)p0.c("data_seed", 1), 404);
+  lmw::LmProblem pr = lmw::make_lm_problem(p);
+  lmw::LmOut lo = lmw::lm_scenario(p, pr, threads, sp);
+  Outcome o;
+  o.vb = lo.v;
+  o.d = lo.d;
   return o;
 }
 
